@@ -28,7 +28,8 @@ Verdicts(r) ==
                      /\ r.trans = (IF r.m = 0 THEN r.chunks ELSE r.m),
         sum |-> TRUE, trans |-> 1 <= r.trans /\ r.trans <= r.chunks, unit |-> TRUE]
 
-TraceInit == l = 1 /\ v = <<>>
+\* line 1 is the driver's header record (so that the depth TLC reports is the line number)
+TraceInit == l = 2 /\ v = <<>> /\ TraceLog[1].e = "hdr"
 TraceStep ==
   /\ l <= Len(TraceLog)
   /\ \E r \in {TraceLog[l]} : v' = Verdicts(r)
@@ -42,8 +43,8 @@ SizesDifferByOneUnit == v # <<>> => v.unit
 
 TraceAccepted ==
   LET d == TLCGet("stats").diameter IN
-  IF d = Len(TraceLog) + 1 THEN TRUE
-  ELSE /\ PrintT(<<"TRACE_REJECTED_AT_LINE", d, "OF", Len(TraceLog)>>)
-       /\ PrintT(<<"OFFENDING", TraceLog[d]>>)
+  IF d = Len(TraceLog) THEN TRUE
+  ELSE /\ PrintT(<<"TRACE_REJECTED_AT_LINE", d + 1, "OF", Len(TraceLog)>>)
+       /\ PrintT(<<"OFFENDING", TraceLog[d + 1]>>)
        /\ FALSE
 ==========================================================================
